@@ -385,6 +385,12 @@ Definition sig_digits (m : Z) : Z := Z.of_nat (length (digits_of_N (Z.to_N (Z.ab
 Definition lower_ident_byte (c : N) : bool :=
   (N.leb 97 c && N.leb c 122) || is_digit c || N.eqb c 95.
 
+(* float32: at most 6 significant digits survive, and the magnitude stays inside the normal range
+   (beyond it SetFloat gives +-Inf / ParseFloat(s, 32) reports a range error) *)
+Definition float_bits_ok (bits m e : Z) : bool :=
+  (bits =? 64) ||
+  ((sig_digits m <=? 6) && ((m =? 0) || ((-37 <=? e + sig_digits m - 1) && (e + sig_digits m - 1 <=? 37)))).
+
 Definition scalar_modelled (T : ftype) (v : cval) : bool :=
   match T, v with
   | _, VNull => true
@@ -395,11 +401,11 @@ Definition scalar_modelled (T : ftype) (v : cval) : bool :=
   | TInt _, VDec m e => dec_int_ok m e
   | TUint _, VDec m e => dec_int_ok m e && (0 <=? m)          (* uint64 of a negative float is platform-defined: kept out *)
   | (TInt _ | TUint _), VStr s => str_int_modelled s
-  | TFloat b, VInt z => (Z.abs z <=? two53) && ((b =? 64) || (sig_digits (match dec_of_Z z with VDec m _ => m | _ => 0 end) <=? 6))
-  | TFloat b, VDec m e => dec_ok m e && ((b =? 64) || (sig_digits m <=? 6))
+  | TFloat b, VInt z => (Z.abs z <=? two53) && float_bits_ok b (match dec_of_Z z with VDec m _ => m | _ => 0 end) 0
+  | TFloat b, VDec m e => dec_ok m e && float_bits_ok b m e
   | TFloat b, VStr s => str_float_modelled s &&
                         match parse_number s with
-                        | VDec m e => if is_number s then dec_ok m e && ((b =? 64) || (sig_digits m <=? 6)) else true
+                        | VDec m e => if is_number s then dec_ok m e && float_bits_ok b m e else true
                         | _ => true
                         end
   | _, _ => true
